@@ -955,8 +955,19 @@ class SupportGenerator(CodeGenerator):
         target_language = self.language_context.get_target_language()
 
         for resource in target_language.get_support_files(resource_type):
-            files.append(resource)
+            files.append(self._resolve_support_template(resource))
         return files
+
+    def _resolve_support_template(self, resource: pathlib.Path) -> pathlib.Path:
+        """
+        A template in a user-provided support templates folder overrides the built-in template of the same name.
+        Resolve the resource to the file the template loader reads when the support header is generated.
+        """
+        if resource.suffix == TEMPLATE_SUFFIX:
+            filename = self._dsdl_template_loader.get_source(self._env, resource.name)[1]
+            if filename is not None:
+                return pathlib.Path(filename)
+        return resource
 
     def _generate_header(
         self, template_path: pathlib.Path, output_path: pathlib.Path, is_dryrun: bool, allow_overwrite: bool
